@@ -1,24 +1,22 @@
 #!/usr/bin/env python3
-"""mutoverlay.py <patch.diff> <outdir> [base-overlay.json]
-Applies a unified diff (paths relative to /repo, -p1) to COPIES of the touched files and writes
-<outdir>/overlay.json mapping the /repo paths to the patched copies (merged with an optional base
-overlay). /repo itself is never touched."""
+"""mutoverlay.py <patch.diff> <outdir>
+Applies a unified diff (paths relative to /repo, -p1) to COPIES of the touched /repo files and writes
+<outdir>/overlay.json mapping the /repo paths to the patched copies. /repo itself is never touched.
+Checks with an instrumentation recipe then instrument the patched copies (VERIF_MUT_OVERLAY)."""
 import json, os, re, shutil, subprocess, sys
 patch, out = sys.argv[1], sys.argv[2]
-base = json.load(open(sys.argv[3]))["Replace"] if len(sys.argv) > 3 and os.path.exists(sys.argv[3]) else {}
 shutil.rmtree(out, ignore_errors=True)
 os.makedirs(out)
 files = re.findall(r'^\+\+\+ [ab]/(\S+)', open(patch).read(), re.M)
 for f in files:
     dst = os.path.join(out, "src", f)
     os.makedirs(os.path.dirname(dst), exist_ok=True)
-    src = base.get("/repo/" + f, "/repo/" + f)   # patch on top of an instrumented copy if there is one
-    if os.path.exists(src):
-        shutil.copy(src, dst)
+    if os.path.exists("/repo/" + f):
+        shutil.copy("/repo/" + f, dst)
 r = subprocess.run(["patch", "-p1", "-d", os.path.join(out, "src"), "-i", os.path.abspath(patch)], capture_output=True, text=True)
 if r.returncode != 0:
     print(r.stdout, r.stderr); sys.exit(1)
-rep = dict(base)
+rep = {}
 for f in files:
     rep["/repo/" + f] = os.path.abspath(os.path.join(out, "src", f))
 json.dump({"Replace": rep}, open(os.path.join(out, "overlay.json"), "w"), indent=1)
